@@ -1,11 +1,21 @@
-/* vocabulary for superlu_?QuerySpace: the byte counts exactly as the code forms them (float arithmetic, left to right) */
+/* vocabulary for superlu_?QuerySpace / superlu_?TempSpace: the byte counts exactly as the code forms them */
 #define NN (in_L.ncol)
 #define IWI ((int_t)sizeof(int_t))
 #define DWI ((int_t)sizeof(@T@))
 #define FOR_L (((float)(7 * NN + 3) * (float)IWI + (float)in_nzend[NN - 1] * (float)DWI) + (float)in_rowend[NN - 1] * (float)IWI)
 #define FOR_U ((float)((2 * NN + 1) * IWI) + (float)in_colend[NN - 1] * (float)(DWI + IWI))
-/* exact (64-bit) value of the work-space byte count of p?TempSpace for maxsuper + rowblk = 400 (sp_ienv(3) + sp_ienv(4)) */
-#define LLn ((long long)NN)
-#define LLw ((long long)panel_size)
-#define TEMPV (2 * LLn > 400 * LLw ? 2 * LLn : 400 * LLw)
-#define PER_PROC ((2 * LLw + 8) * LLn * IWI + (LLn * LLw + TEMPV) * DWI)
+/* exact (64-bit) value of the work-space byte count of p?TempSpace; 400 = sp_ienv(3) + sp_ienv(4) (maxsuper + rowblk) */
+#define LL(x) ((long long)(x))
+#define TEMPV(n_, w_) (2 * LL(n_) > 400 * LL(w_) ? 2 * LL(n_) : 400 * LL(w_))
+#define PER_PROC(n_, w_) ((2 * LL(w_) + 8) * LL(n_) * IWI + (LL(n_) * LL(w_) + TEMPV(n_, w_)) * DWI)
+#ifndef WFIX
+#define WFIX 0
+#endif
+#ifndef PFIX
+#define PFIX 0
+#endif
+/* WFIX / PFIX != 0: panel size / number of threads fixed by the variant (the float product ptmp * p with two symbolic operands does not finish) */
+#define TS_RANGES(n_, w_, p_) (0 <= (n_) && (n_) <= NMAX && 1 <= (w_) && (w_) <= WMAX && 1 <= (p_) && (p_) <= PMAX && (WFIX == 0 || (w_) == WFIX) && (PFIX == 0 || (p_) == PFIX))
+#define TS_FIT(n_, w_, p_) (56 * LL(n_) <= 2147483647LL && (2 * LL(w_) + 8) * LL(n_) * IWI <= 2147483647LL && (LL(n_) * LL(w_) + TEMPV(n_, w_)) * DWI <= 2147483647LL && 56 * LL(n_) + LL(p_) * PER_PROC(n_, w_) <= 2147483648LL - 4096)
+/* the documented byte count as an integer (used where all sizes are small enough for the float sum to be exact) */
+#define E_FOR_LU ((7 * NN + 3) * IWI + in_nzend[NN - 1] * DWI + in_rowend[NN - 1] * IWI + (2 * NN + 1) * IWI + in_colend[NN - 1] * (DWI + IWI))
